@@ -53,7 +53,7 @@ if "--recheck" in sys.argv:
     ap = sh(f"git -C /repo apply {dst}/patch.diff")
     assert ap.returncode == 0, ap.stderr
     try:
-        chk = sh(f"cd /verif && ./check {prop} --tier quick")
+        chk = sh(f"cd /verif && VERIF_NO_EVIDENCE=1 ./check {prop} --tier quick")
     finally:
         sh("git -C /repo checkout -- .")
     sigs = sorted({ln.split(" :: ")[0].replace("violation: ", "") for ln in chk.stdout.splitlines() if ln.startswith("violation: ")})
@@ -93,14 +93,23 @@ finally:
     sh(f"git -C {wt} checkout -- .")
 print("demo clean rc", rc_clean, "| patched rc", rc_patched, "| tests:", tests)
 ok = rc_clean == 0 and rc_patched != 0 and (skip_tests or "missing_on_patched=0" in tests)
-# run the check against /repo with the patch applied
-assert sh("git -C /repo status --porcelain --untracked-files=no").stdout.strip() == "", "/repo not clean"
-ap = sh(f"git -C /repo apply {patch}")
-assert ap.returncode == 0, ap.stderr
-try:
-    chk = sh(f"cd /verif && ./check {prop} --tier quick")
-finally:
-    sh("git -C /repo checkout -- .")
+# run the check with the patch applied: against /repo itself (default) or, with SEED_WT=1, against the scratch
+# worktree through VERIF_REPO (lets several mutants be screened in parallel; confirm later with --recheck)
+if os.environ.get("SEED_WT"):
+    ap = sh(f"git -C {wt} apply {patch}")
+    assert ap.returncode == 0, ap.stderr
+    try:
+        chk = sh(f"cd /verif && VERIF_REPO={wt} VERIF_NO_EVIDENCE=1 ./check {prop} --tier quick")
+    finally:
+        sh(f"git -C {wt} checkout -- .")
+else:
+    assert sh("git -C /repo status --porcelain --untracked-files=no").stdout.strip() == "", "/repo not clean"
+    ap = sh(f"git -C /repo apply {patch}")
+    assert ap.returncode == 0, ap.stderr
+    try:
+        chk = sh(f"cd /verif && VERIF_NO_EVIDENCE=1 ./check {prop} --tier quick")
+    finally:
+        sh("git -C /repo checkout -- .")
 sigs = sorted({ln.split(" :: ")[0].replace("violation: ", "") for ln in chk.stdout.splitlines() if ln.startswith("violation: ")})
 print("check exit", chk.returncode, sigs[:6])
 dst = f"/verif/seeded/{seed_id}"
@@ -122,6 +131,7 @@ json.dump({
         "all_confirmed": ok,
     },
     "check_result": {"cmd": f"./check {prop} --tier quick", "exit": chk.returncode, "signatures": sigs[:10],
-                     "caught": chk.returncode == 1},
+                     "caught": chk.returncode == 1,
+                     "via": "VERIF_REPO=scratch worktree" if os.environ.get("SEED_WT") else "patch applied to /repo"},
 }, open(os.path.join(dst, "meta.json"), "w"), indent=1)
 print("filed", dst, "confirmed" if ok else "NOT CONFIRMED", "caught" if chk.returncode == 1 else "MISSED")
